@@ -7,10 +7,48 @@
     meaning; a lost end-of-stream marker shows as a hang, a lost element as a wrong result). *)
 From Noir Require Import Model.Pipe Corr.Canon.
 From Noir Require Corr.C01.
-From Coq Require Import NArith.
+From Coq Require Import NArith List Bool Arith.
+Import ListNotations.
 
-Definition case := C01.case.
-Definition prop_ok (c : case) : bool := C01.prop_ok c.
-Definition known_class (c : case) : N := C01.known_class c.
-Definition corr_ok (c : case) : bool := C01.corr_ok c.
+(** A second kind of case: the engineered two-host hash join of two parallel sources of
+    harness/src/props/muxjoin.rs (finite input, finite user sleeps): host X with 2 cores, host
+    Y with the rest; [early] = the two stragglers emit one late item each, so that their End
+    flushes one destination before the others when the round ends. *)
+Inductive mj_outcome := MJDone (joined : N) | MJHang.
+
+Inductive case :=
+| KJob (c : C01.case)
+| KMuxJoin (cores : list nat) (early : bool) (expected : N) (o : mj_outcome).
+
+Definition prop_ok (c : case) : bool :=
+  match c with
+  | KJob x => C01.prop_ok x
+  | KMuxJoin _ _ expected (MJDone n) => N.eqb n expected
+  | KMuxJoin _ _ _ MJHang => false
+  end.
+
+(** known finding F13 (class 4): remote messages of one (block pair, host pair) share one
+    connection whose demultiplexer blocks on a full destination channel (capacity 16); a
+    two-input block stops reading a side that ended its round, so with MORE THAN 16 producer
+    replicas on that side their Terminates fill the channel and block the connection, and with
+    it a FlushAndRestart that another replica of the block waits for — crosswise on both
+    inputs when some producer flushed one destination early. Model:
+    [NetProofs.mux_join_deadlock]. From the case: >= 2 hosts, > 16 producers per input
+    (each source has one replica per core), the early flush, and the run hung. *)
+Definition producers (cores : list nat) : nat := fold_left Nat.add cores 0%nat.
+Definition known_class (c : case) : N :=
+  match c with
+  | KJob x => C01.known_class x
+  | KMuxJoin cores early _ o =>
+      match o with
+      | MJHang => if (Nat.leb 2 (length cores)) && (Nat.leb 17 (producers cores)) && early then 4%N else 0%N
+      | MJDone _ => 0%N
+      end
+  end.
+
+Definition corr_ok (c : case) : bool :=
+  match c with
+  | KJob x => C01.corr_ok x
+  | KMuxJoin _ _ _ _ => prop_ok c || negb (N.eqb (known_class c) 0%N)
+  end.
 Definition report (cs : list case) := classify corr_ok prop_ok known_class cs.
